@@ -20,4 +20,19 @@ PROPS = {
         "note": "",
         "assumptions": COMMON_ASSUME,
     },
+    "C14": {
+        "claimed": True,
+        "title": "Tokens survive serialisation exactly; decoding arbitrary text never crashes",
+        "lean": ["Gonuts.Props.C14", "Gonuts.Tie.Token"],
+        "streams": ["token", "token-fuzz"],
+        "level": "proof",
+        "technique": "Lean 4 theorems over Model.Token (abstract syntax of cashu.Proof/TokenV3/TokenV4, NewTokenV3/V4 incl. the Go map grouping with the iteration order as a parameter, accessors, executable encoding/hex and encoding/base64 with proved decode(encode)=id, the byte-level string front end of DecodeToken with Go panics as explicit outcomes) + differential correspondence of every step with the real code + model-free round-trip and no-panic monitors",
+        "design_ref": "DESIGN.md §5 C14, §4.4, §6 F9",
+        "text": "",
+        "note": "",
+        "assumptions": COMMON_ASSUME + [
+            "encoding/json and fxamacker/cbor are abstract functions (Codec) in the model: decode_total holds for EVERY codec (whatever the libraries return, the token code does not panic; that the libraries themselves do not panic is fuzzed, not proved); the round-trip theorems assume dec(enc t)=some t for the token at hand, which the stream checks on every generated token with the real libraries",
+            "proof fields are Lean Strings (valid Unicode); Go strings that are not valid UTF-8 are outside the property's domain (the stream records what happens to them: JSON replaces the bytes, CBOR refuses to decode)",
+        ],
+    },
 }
